@@ -387,7 +387,8 @@ Definition symbol_part (text : str) : option str :=
 Theorem malformed d ce dm text :
   (* unparsable number: whatever class, whatever unit argument *)
   (forall c ua, (parse_num (number_part text) = Err EValueError \/
-                 parse_num (number_part text) = Err ETypeError) ->
+                 parse_num (number_part text) = Err ETypeError \/
+                 parse_num (number_part text) = Err EZeroDivision) ->
        parse d ce dm c ua text = Err EQuantityError) /\
   (* unknown symbol *)
   (forall c ua a s, parse_num (number_part text) = Ok a -> symbol_part text = Some s ->
@@ -403,7 +404,7 @@ Proof.
   unfold number_part, symbol_part, parse, parse_qty.
   destruct (split_first_blank (lstrip text)) as [sa rest]. simpl.
   split; [|split; [|split]].
-  - intros c ua [H|H]; rewrite H; reflexivity.
+  - intros c ua [H|[H|H]]; rewrite H; reflexivity.
   - intros c ua a s Hp Hs Hl. rewrite Hp. destruct rest as [r|]; [|discriminate].
     injection Hs as <-. rewrite Hl. reflexivity.
   - intros c a Hp Hs Hr. rewrite Hp. destruct rest as [r|]; [discriminate|].
@@ -414,14 +415,16 @@ Proof.
 Qed.
 
 (* any other exception of the numeric parser leaves the constructor unchanged
-   (Fraction('1/0'): ZeroDivisionError, not QuantityError) *)
+   (none is known to occur; ZeroDivisionError of Fraction('1/0') used to, until
+   repo commit 046398b) *)
 Theorem parser_exception_escapes d ce dm c ua text e :
-  parse_num (number_part text) = Err e -> e <> EValueError -> e <> ETypeError ->
+  parse_num (number_part text) = Err e ->
+  e <> EValueError -> e <> ETypeError -> e <> EZeroDivision ->
   parse d ce dm c ua text = Err e.
 Proof.
   unfold number_part, parse, parse_qty.
   destruct (split_first_blank (lstrip text)) as [sa rest]. simpl.
-  intros H N1 N2. rewrite H. destruct e; try reflexivity; contradiction.
+  intros H N1 N2 N3. rewrite H. destruct e; try reflexivity; contradiction.
 Qed.
 
 (* empty and all-whitespace text *)
@@ -698,8 +701,9 @@ Lemma ex_inner_blank :
     (qty_str toy_show ex_dir (mkQty (-7 # 3) ex_ab)) = Ok (mkQty (-7 # 3) ex_ab).
 Proof. vm_compute. reflexivity. Qed.
 
-(* the text "1/0 x": ZeroDivisionError, not QuantityError *)
+(* the text "1/0 x": the parser's ZeroDivisionError becomes QuantityError *)
 Lemma ex_zero_denominator :
+  toy_parse [49; 47; 48] = Err EZeroDivision /\
   parse_qty toy_parse ex_dir no_conv MHEVEN generic UNone [49; 47; 48; 32; 120]
-    = Err EZeroDivision.
-Proof. vm_compute. reflexivity. Qed.
+    = Err EQuantityError.
+Proof. split; vm_compute; reflexivity. Qed.
